@@ -136,8 +136,46 @@ impl<'a, 'tcx> BodyCx<'a, 'tcx> {
         // named (unevaluated) constants keep their path
         if let mir::Const::Unevaluated(uv, _) = c.const_ {
             kv.push(("def", J::s(&def_path(tcx, uv.def))));
-            if uv.promoted.is_some() {
+            if let Some(pidx) = uv.promoted {
                 kv.push(("promoted", J::Bool(true)));
+                // named constants / literal scalars referenced by the promoted body
+                let mut refs: Vec<J> = Vec::new();
+                let proms = tcx.promoted_mir(uv.def);
+                if pidx.as_usize() < proms.len() {
+                    let pb = &proms[pidx];
+                    for bbd in pb.basic_blocks.iter() {
+                        for st in bbd.statements.iter() {
+                            if let StatementKind::Assign(b) = &st.kind {
+                                let mut ops: Vec<&Operand<'tcx>> = Vec::new();
+                                match &b.1 {
+                                    Rvalue::Use(o, ..) | Rvalue::Repeat(o, _) | Rvalue::Cast(_, o, _) | Rvalue::UnaryOp(_, o) => ops.push(o),
+                                    Rvalue::BinaryOp(_, ab) => {
+                                        ops.push(&ab.0);
+                                        ops.push(&ab.1);
+                                    }
+                                    Rvalue::Aggregate(_, os) => {
+                                        for o in os.iter() {
+                                            ops.push(o);
+                                        }
+                                    }
+                                    _ => {}
+                                }
+                                for o in ops {
+                                    if let Operand::Constant(c2) = o {
+                                        if let mir::Const::Unevaluated(uv2, _) = c2.const_ {
+                                            if uv2.promoted.is_none() {
+                                                refs.push(J::s(&def_path(tcx, uv2.def)));
+                                            }
+                                        } else {
+                                            refs.push(J::s(&with_no_trimmed_paths!(format!("{}", c2.const_))));
+                                        }
+                                    }
+                                }
+                            }
+                        }
+                    }
+                }
+                kv.push(("prefs", J::Arr(refs)));
             }
         }
         if let ty::FnDef(did, _) = ty.kind() {
